@@ -82,6 +82,9 @@ package graphql
 //@   call ShouldIncludeNode assert arg0 == selection.Directives
 //@   call ShouldIncludeNode ghost approved = ite(ret0 && ret1 == nil, selection, nil)
 //@   call newOutputNode assert approved == selection
+// C14: validation (PrepareQuery, call PrepareQuery#2 assert) accepts at an object exactly __typename and the object's
+// fields, so the "invalid top-level selection" error may only be reached for a name validation rejects as well
+//@   call Errorf#2 assert selection.Name != "__typename" && !(selection.Name in queryObject.Fields)
 
 // ---- C17: connection lifecycle. conn.subscriptions holds exactly the live rerunners of the connection.
 //@ guarded_by conn.mu: subscriptions
@@ -193,7 +196,9 @@ package graphql
 //@   call resolveBatch assert len(arg1) == 1 && len(arg4) == 1 && arg4[0] == dest && arg2 == unit.field.Type && arg3 == unit.selection.SelectionSet
 
 //@ func executeBatchWorkUnit
-//@   requires unit != nil && unit.selection != nil && unit.field != nil
+//@   requires unit != nil && unit.selection != nil && unit.field != nil && len(unit.destinations) >= len(unit.sources)
+// field.BatchResolver is built by schemabuilder (batchExecFunc / extractResultsAndErr) and returns one result per source
+//@   call SafeExecuteBatchResolver assume ret1 == nil ==> len(ret0) == len(arg2)
 //@   keeps WorkUnit
 //@   call SafeExecuteBatchResolver assert arg1 == unit.field && arg2 == unit.sources && arg3 == unit.selection.Args && arg4 == unit.selection.SelectionSet
 //@   call resolveBatch assert arg4 == unit.destinations && arg2 == unit.field.Type && arg3 == unit.selection.SelectionSet
@@ -410,6 +415,20 @@ package graphql
 // PrepareQuery walks the (trusted) schema, whose output types are exactly these six kinds; the selection set is untrusted.
 //@ func PrepareQuery
 //@   assume typ is *Scalar || typ is *Enum || typ is *Union || typ is *Object || typ is *List || typ is *NonNull
+// ---- C14 (one level; the recursive calls carry the same contract): an accepted query has no sub-selections on a scalar or
+// enum and has them on an object or union; every selection of an object is __typename (without arguments or
+// sub-selections) or names a field of the type, and its sub-selection is validated against that field's type; list and
+// non-null wrappers are validated against their element type with the same selection set.
+//@   ensures err == nil && (typ is *Scalar || typ is *Enum) ==> selectionSet == nil
+//@   ensures err == nil && (typ is *Object || typ is *Union) ==> selectionSet != nil
+//@   call PrepareQuery#1 assert arg1 == any(graphqlTyp) && fragment.On == typString && arg2 == fragment.SelectionSet
+//@   call PrepareQuery#2 assert (selection.Name in typ.Fields) && selection.Name != "__typename" && arg1 == typ.Fields[selection.Name].Type && arg2 == selection.SelectionSet
+//@   call PrepareQuery#3 assert arg1 == any(typ) && arg2 == fragment.SelectionSet
+//@   call PrepareQuery#4 assert arg1 == typ.Type && arg2 == selectionSet
+//@   call PrepareQuery#5 assert arg1 == typ.Type && arg2 == selectionSet
+//@   call dynamic assert arg0 == selection.UnparsedArgs
+// field.ParseArguments (built by schemabuilder from the argument struct) works on the JSON arguments only
+//@   keeps Selection, Object, Field, map[string]*Field
 
 //@ func SelectionSet.ShallowCopy
 //@   requires s != nil
@@ -417,3 +436,48 @@ package graphql
 //@   ensures result != nil && fresh(result)
 //@   ensures len(result.Selections) == len(s.Selections) && (forall k int :: 0 <= k && k < len(s.Selections) ==> result.Selections[k] == s.Selections[k]) && (result.Selections == nil || (fresh(result.Selections) && allocated(result.Selections)))
 //@   ensures len(result.Fragments) == len(s.Fragments) && (forall k int :: 0 <= k && k < len(s.Fragments) ==> result.Fragments[k] == s.Fragments[k]) && (result.Fragments == nil || (fresh(result.Fragments) && allocated(result.Fragments)))
+
+// ---- C14 (execution side): the executor emits the JSON shape of the advertised type. resolveBatch dispatches on the
+// same graphql.Type value that PrepareQuery validated and introspection reports; a List destination is always filled
+// with a []interface{}; an Enum destination is filled with the advertised name of a value in the enum's ReverseMap.
+//@ func resolveBatch
+//@   requires len(destinations) >= len(sources)
+//@   assume typ is *Scalar || typ is *Enum || typ is *Union || typ is *Object || typ is *List || typ is *NonNull
+// execution follows validation: PrepareQuery (ensures#2) accepted this selection set for this type, so a union is
+// never executed without one (the wrappers List and NonNull pass the selection set through unchanged)
+//@   assume (typ is *Union) ==> selectionSet != nil
+//@   call resolveScalarBatch assert arg0 == sources && arg1 != nil && arg2 == destinations
+//@   call resolveEnumBatch assert arg0 == sources && arg1 != nil && arg2 == destinations
+//@   call resolveListBatch assert arg1 == sources && arg2 != nil && arg3 == selectionSet && arg4 == destinations
+//@   call resolveUnionBatch assert arg1 == sources && arg2 != nil && arg3 == selectionSet && arg4 == destinations
+//@   call resolveObjectBatch assert arg1 == sources && arg2 != nil && arg3 == selectionSet && arg4 == destinations
+//@   call resolveBatch assert arg1 == sources && arg2 == typ.Type && arg3 == selectionSet && arg4 == destinations
+
+//@ func newTopLevelOutputNode
+//@   assigns nothing
+//@   ensures result != nil && fresh(result) && result.errRecorder != nil && fresh(result.errRecorder) && result.res == nil
+
+//@ func newOutputNode
+//@   requires parent != nil
+//@   assigns nothing
+//@   ensures result != nil && fresh(result) && result.errRecorder == parent.errRecorder && result.res == nil
+
+//@ func outputNode.Fill
+//@   requires o != nil
+//@   assigns outputNode
+//@   ensures o.res == res && o.errRecorder == old(o.errRecorder) && o.pathTracker == old(o.pathTracker)
+//@   ensures forall p *outputNode :: p != o ==> deref(p) == old(deref(p))
+
+//@ func resolveListBatch
+//@   requires typ != nil && len(destinations) >= len(sources)
+//@   assume allocated(sources) && allocated(destinations)
+//@   ghost filled map[int]bool
+//@   call outputNode.Fill#1 assert arg0 == destinations[idx] && (arg1 is []interface{})
+//@   call outputNode.Fill#2 assert arg0 == destinations[idx] && (arg1 is []interface{}) && arg1 == any(respList)
+//@   call outputNode.Fill ghost filled[idx] = true
+//@   call newOutputNode assert arg0 == destinations[idx]
+//@   call resolveBatch assert arg2 == typ.Type && arg3 == selectionSet && len(arg1) == len(arg4)
+//@   loop 1 invariant -1 <= rangeindex && rangeindex < len(sources) && len(reflectedSources) == len(sources)
+//@   loop 2 invariant -1 <= rangeindex && rangeindex < len(reflectedSources) && len(reflectedSources) == len(sources) && len(flattenedResps) == len(flattenedSources)
+//@   loop 2 invariant forall k int :: 0 <= k && k <= rangeindex ==> filled[k]
+//@   loop 3 invariant len(flattenedResps) == len(flattenedSources) && 0 <= i && -1 <= rangeindex && rangeindex < len(sources) && len(reflectedSources) == len(sources)
